@@ -99,12 +99,31 @@ def check(ctx):
             check_key_tuple(ctx, f, call, body, arg, roles)
         check_sorted_is_written(ctx, f, call)
     ctx.run(check_provenance)
+
+    def _offset_source(ctx_):
+        # the offset that breaks ties and fetches the record in the write pass is the reader's own tell(): C09's rule
+        from . import c09 as _c09
+        from . import sort_common as _sc
+
+        _c09.r09_1(ctx_, _sc.build(ctx_, "R09.1"))
+
+    ctx.run(_offset_source)
+
+    def _scaffold_orientations(ctx_):
+        # the orientation majority that picks the anchor is taken over the scaffold nodes (NO == 0) only: C09's rule
+        from . import c09 as _c09
+        from . import sort_common as _sc
+
+        _c09.r09_3(ctx_, _sc.build(ctx_, "R09.3"))
+
+    ctx.run(_scaffold_orientations)
     ctx.not_decided.append("nothing of C08's statement is left undecided except the behaviour of list.sort itself (trusted: stable, uses only the comparator)")
     # mechanisms this property rests on (see shared.py): a change there is reported here as well
     from . import shared as _sh
 
     ctx.run_shared(_sh.path_tokenisers)
     ctx.run_shared(_sh.graph_loader)
+    ctx.run_shared(_sh.gaf_reader)  # sort opens its input by the same content sniffer as the GAF reader
     ctx.run_shared(_sh.cli_layer, "gaftools.cli.sort")
 
 
@@ -662,6 +681,24 @@ def check_provenance(ctx):
             if len(assigned) >= 2 and n.orelse:
                 branch = n
     if branch is None:
+        # a flag computed from the orientation counts and then changed by something else before it selects the anchor
+        for n in walk_own(pa.node):
+            t_ = n.test if isinstance(n, ast.If) else None
+            while isinstance(t_, ast.UnaryOp) and isinstance(t_.op, ast.Not):
+                t_ = t_.operand
+            if isinstance(t_, ast.Name) and n.orelse and len({norm(t) for st in walk_stmts(n.body) if isinstance(st, ast.Assign) for t in st.targets}) >= 2:
+                ds = [d for d in pdefs.get(t_.id, []) if d is not None]
+                from_counts = [d for d in ds if ".count(" in norm(d) or (olist_ is not None and olist_ in {x.id for x in ast.walk(d) if isinstance(x, ast.Name)})]
+                other = [d for d in ds if d not in from_counts]
+                if from_counts and other:
+                    guards_ = []
+                    for st in walk_stmts(pa.node.body):
+                        if isinstance(st, ast.Assign) and st.value in other:
+                            from .c09 import guards_of
+
+                            guards_ = [norm(g_) for g_, _p in guards_of(pa.node, st)]
+                    ctx.violated("R08.2", pa.where(n), f"the forward/reverse decision `{t_.id}` is taken from the scaffold orientation counts (`{norm(from_counts[0])[:60]}`) and then changed to `{norm(other[0])[:40]}`" + (f" under `{guards_[0][:40]}`" if guards_ else "") + ": the anchor node and the start offset no longer follow the orientation majority of the path, so records are keyed on the wrong end", key_of(pa, f"reverse-flag-overridden:{norm(other[0])[:40]}"))
+                    return
         raise AnalysisError("R08.2", where, "cannot find the forward/reverse branch (if on orientation counts assigning the key)")
 
     # decision table of the branch test over (count('>'), count('<'))
